@@ -27,6 +27,7 @@ VOk(v) == On /\ (IF steps = -1 THEN v \in {1, 2} ELSE v = SeqBudget - steps + 1)
 A1 == {<<o>> : o \in Objs}
 A2o == {<<d, s>> : d \in Objs, s \in Objs}
 A2v == {<<o, v>> : o \in Objs, v \in Vals}
+A3h == {<<d, s, h>> : d \in Objs, s \in Objs, h \in {1, 2, 3}}
 
 DefaultCtor(c) == On /\ c \in A1 /\ OR!DefaultCtor(c)
 ValueCtorCopy(c) == VOk(c[2]) /\ OR!ValueCtorCopy(c)
@@ -39,6 +40,8 @@ MoveAssign(c) == On /\ c \in A2o /\ OR!MoveAssign(c)
 AssignValue(c)   == VOk(c[2]) /\ OR!AssignValue(c)
 Emplace(c)       == VOk(c[2]) /\ OR!Emplace(c)
 SetValue(c)      == VOk(c[2]) /\ OR!SetValue(c)
+AssignValueCopy(c) == VOk(c[2]) /\ OR!AssignValueCopy(c)
+AssignValueOf(c) == On /\ c \in A3h /\ OR!AssignValueOf(c)
 HasValue(c) == On /\ c \in A1 /\ OR!HasValue(c)
 Bool(c) == On /\ c \in A1 /\ OR!Bool(c)
 Value(c) == On /\ c \in A1 /\ OR!Value(c)
@@ -48,7 +51,8 @@ Next ==
   \/ \E c \in A1 : \/ DefaultCtor(c) \/ Destroy(c) \/ HasValue(c) \/ Bool(c) \/ Value(c)
   \/ \E c \in A2o : \/ CopyCtor(c) \/ MoveCtor(c) \/ CopyAssign(c) \/ MoveAssign(c)
   \/ \E c \in A2v : \/ ValueCtorCopy(c) \/ ValueCtorMove(c) \/ AssignValue(c) \/ Emplace(c)
-                    \/ SetValue(c)
+                    \/ SetValue(c) \/ AssignValueCopy(c)
+  \/ \E c \in A3h : AssignValueOf(c)
 
 TypeOK == OR!TypeOK
 NoneIsEmpty == OR!NoneIsEmpty
